@@ -112,6 +112,14 @@ def load_prop(prop):
 
 def worker_main(argv):
     prop, tier, seed, shard, nshards, out = argv
+    try:
+        # a generated script may compute something enormous (a tower of
+        # powers): that is the script's own error, and it must not take the
+        # machine with it -- 6 GB of address space per shard is ample
+        import resource
+        resource.setrlimit(resource.RLIMIT_AS, (6 << 30, 6 << 30))
+    except (ImportError, ValueError, OSError):
+        pass
     mod = load_prop(prop)
     ctx = Ctx(prop, tier, int(seed), int(shard), int(nshards))
     try:
